@@ -2,6 +2,7 @@ package urltree
 
 import (
 	"fmt"
+	"strings"
 
 	"github.com/rs/zerolog/log"
 	"github.com/samber/lo"
@@ -229,6 +230,29 @@ func convergeNodesPaths[T any](nodes []*Node[T], paramIndex int) *Node[T] {
 			Name:  buildAssumedPathParamName(paramIndex),
 			Child: convergeNodesPaths(childNodesToConverge, paramIndex),
 		}
+
+		// Below an assumed path parameter no constant path part is ever added next
+		// to it again (Insert navigates into the parameter), so values that were
+		// already counted under the parameter of one merged node must not turn
+		// back into constants because another merged node still listed them:
+		// the constants join the parameter, as they do when Insert converges.
+		allAssumed := lo.EveryBy(
+			parametricChildren,
+			func(pc ParametricChild[T]) bool { return strings.HasPrefix(pc.Name, assumedPathParamPrefix) },
+		)
+		constantPathNodes := []*Node[T]{}
+		for part, child := range convergedConstantChildren {
+			if allAssumed && child != nil && !child.IsPartOfHost {
+				constantPathNodes = append(constantPathNodes, child)
+				delete(convergedConstantChildren, part)
+			}
+		}
+		if len(constantPathNodes) > 0 {
+			convergedParametricChild.Child = convergeNodesPaths(
+				append(constantPathNodes, convergedParametricChild.Child),
+				paramIndex,
+			)
+		}
 	}
 
 	return &Node[T]{
@@ -239,6 +263,8 @@ func convergeNodesPaths[T any](nodes []*Node[T], paramIndex int) *Node[T] {
 	}
 }
 
+const assumedPathParamPrefix = "_param_"
+
 func buildAssumedPathParamName(paramIndex int) string {
-	return fmt.Sprintf("_param_%v", paramIndex)
+	return fmt.Sprintf("%s%v", assumedPathParamPrefix, paramIndex)
 }
